@@ -225,10 +225,10 @@ class C05(core.Check):
 
     def invalid_zone_cases(self, rng, i):
         """source-created zones of each invalid kind, and invalid zones in the ISA definition"""
-        addr_bits = rng.choice([8, 12, 16])
+        addr_bits = rng.choice([8, 12, 16]) if i % 7 else rng.choice([12, 16])
         top = (1 << addr_bits) - 1
         gz = None
-        if rng.random() < 0.5 and addr_bits > 8:
+        if (rng.random() < 0.5 or i % 7 == 0) and addr_bits > 8:
             gz = (0x20, 0x7F)
         G = gz or (0, top)
         zones = [{'name': 'ZA', 'start': G[0] + 4, 'end': G[0] + 12}]
@@ -239,7 +239,9 @@ class C05(core.Check):
         force = None
         if which == 'create:outside-global':
             if gz:
-                s, e = rng.choice([(G[0] - 3, G[0] + 5), (G[1] - 4, G[1] + 1), (G[1] + 2, G[1] + 9), (0, G[0] - 1)])
+                variants = [(G[0] - 3, G[0] + 5), (G[1] - 4, G[1] + 1), (G[1] + 2, G[1] + 9), (0, G[0] - 1), (G[0] - 1, G[0]),
+                            (G[1], G[1] + 1), (G[0] - 1, G[1] + 1), (G[0] + 3, G[1] + 40)]
+                s, e = variants[(i // 7) % len(variants)]
             else:
                 if addr_bits >= 16:
                     which = 'create:beyond-width'
@@ -280,8 +282,8 @@ class C05(core.Check):
             rng = core.rng_for(0 if i < n_pre else seed, self.pid, i)
             d = ['at-end', 'past-end', None, 'org-past'][i % 4] if i < n_pre else rng.choice(['at-end', 'past-end', 'org-past', None, None, None])
             yield self.build(rng, d)
-        for i in range(70 if tier == 'quick' else 700):
-            rng = core.rng_for(0 if i < 70 else seed, self.pid, 'inv', i)
+        for i in range(140 if tier == 'quick' else 1400):
+            rng = core.rng_for(0 if i < 140 else seed, self.pid, 'inv', i)
             yield self.invalid_zone_cases(rng, i)
 
     def judge(self, case, outcomes):
